@@ -121,6 +121,18 @@ def findings():
                     expected="relative residual ~1e-16 (as for the same matrix times 1e-3 or 1)",
                     what="arnoldi_fact normalises the next basis vector only when the remainder norm exceeds the ABSOLUTE tol/2: for an operator of small overall scale "
                          "(||A|| <~ tol) every remainder is below it, the basis stops after q_0 and gmres returns a residual of 0.14 instead of 1e-16 at max_iters = n"))
+    # the documented 1-D x0 next to a right-hand side that arrives as (n, 1) through the lazy inverse
+    A3 = np.array([[2.0, 1.0, 0.0], [1.0, 3.0, 1.0], [0.0, 1.0, 4.0]])
+    b3 = np.array([1.0, 2.0, 3.0])
+    try:
+        x = np.asarray(cola.linalg.solve(Dense(A3), b3, cola.linalg.GMRES(x0=np.ones(3), max_iters=3)))
+        present = bool(x.shape != (3,) or np.linalg.norm(A3 @ x - b3) > 1e-6)
+        got = "result of shape %s" % (x.shape,)
+    except Exception as e:  # noqa
+        present, got = True, "raised %s: %s" % (type(e).__name__, str(e)[:80])
+    out.append(dict(flag="iterative_x0_vector", present=present, witness="solve(Dense([[2,1,0],[1,3,1],[0,1,4]]), [1,2,3], GMRES(x0=ones(3), max_iters=3))", got=got,
+                    expected="[0.3333, 0.3333, 0.6667]",
+                    what="inv(A, GMRES(x0=v)) @ b / solve(A, b, GMRES(x0=v)) with the documented 1-D guess v fails: the lazy inverse hands gmres an (n,1) right-hand side and gmres reshapes x0 only for a 1-D one (broadcast to a wrong (n,n) result or ValueError)"))
     return out
 
 
@@ -346,7 +358,7 @@ def run(ctx):
                         dump_case(c, o)
                 prev = res
     for c, o in list(zip(cases, obs))[:ctx.budget(120, 800)]:
-        if o.get("ok") and (c["X0"] is None or not c["vector_api"]):
+        if o.get("ok") and (c["X0"] is None or not c["vector_api"] or not flags.get("iterative_x0_vector", True)):
             o3 = G.run_impl(c, via_inv=True)
             invpath += 1
             if not (o3.get("ok") and np.array_equal(o3["x"], o["x"]) and o3["products"] == o["products"]):
